@@ -170,6 +170,72 @@ def judge(cond, role, rec, msg, call_args, a_repr, strict_none=True):
     return bad
 
 
+def node_level(ns_cond, rec, call_args):
+    """Compare icontract._recompute.Visitor.recomputed_values (every node the library re-computed, shown or not) with the
+    recorder. Returns list of (symptom, detail). Tolerant: returns [] if the internal API is not there."""
+    try:
+        import icontract._represent as rp
+        import icontract._recompute as rc
+        insp = rp.inspect_lambda_condition(condition=ns_cond)
+        lookup = rp.collect_variable_lookup(condition=ns_cond, resolved_kwargs=call_args)
+        visitor = rc.Visitor(variable_lookup=lookup)
+    except Exception:
+        return []
+    try:
+        visitor.visit(node=insp.node.body)
+    except Exception as e:
+        return [("recomputation_raised", "{!r}".format(e))]
+    values = getattr(visitor, "recomputed_values", None)
+    if not isinstance(values, dict):
+        return []
+    bad = []
+    # recorder nodes by (type, text); in_comp nodes are evaluated many times / by compiled code: judged by membership
+    by_key = {}
+    for i, inf in enumerate(rec.info):
+        by_key.setdefault((inf["type"], inf["text"]), []).append(i)
+    for node, v in values.items():
+        if not isinstance(node, ast.expr) or isinstance(node, (ast.Slice,)):
+            continue
+        try:
+            text = insp.atok.get_text(node)
+        except Exception:
+            continue
+        if not text or isinstance(node, ast.Constant):
+            continue  # constants inside format specs carry no text of their own
+        key = (type(node).__name__, text)
+        idxs = by_key.get(key)
+        if not idxs:
+            continue  # e.g. a format spec JoinedStr, which the recorder does not number
+        cands = []
+        evaluated = False
+        incomp = False
+        for i in idxs:
+            incomp = incomp or rec.info[i]["in_comp"]
+            if i in rec.values:
+                evaluated = True
+                cands.extend(rec.values[i])
+        if isinstance(v, rc.FirstExceptionInAll):
+            v = False
+        if not expr.representable(v):
+            continue  # functions, classes, methods, modules, builtins: module and recorder hold distinct copies
+        if not evaluated:
+            if not incomp:
+                bad.append(("recomputed_what_python_skipped", "{} {!r} re-computed as {!r} but Python did not evaluate it".format(key[0], text, v)))
+            continue
+        same = False
+        for c in cands:
+            try:
+                if c is v or (type(c) is type(v) and c == v) or (repr(c) == repr(v)):
+                    same = True
+                    break
+            except Exception:
+                pass
+        if not same:
+            bad.append(("recomputed_value_differs", "{} {!r}: the library re-computed {!r}, Python computed {}".format(
+                key[0], text, v, [repr(c) for c in cands][:4])))
+    return bad
+
+
 def check_batch(batch, acc, vals, level):
     import icontract
 
@@ -236,6 +302,15 @@ def check_batch(batch, acc, vals, level):
                     if role == "ensure":
                         call_args["result"] = 1
                     bad = judge(ctext, role, rec, str(exc), call_args, a_repr)
+                    if not bad:
+                        chk = icontract._checkers.find_checker(ns["FS"][idx])
+                        contracts = ([c for g in chk.__preconditions__ for c in g] + list(chk.__postconditions__)) if chk is not None else []
+                        if len(contracts) == 1:
+                            resolved = dict(call_args)
+                            resolved["_ARGS"] = ()
+                            resolved["_KWARGS"] = dict(val)
+                            bad = node_level(contracts[0].condition, rec, resolved)
+                            acc.bump("node_level_comparisons")
                 for b in bad[:1]:
                     sym, detail = b[0], b[1]
                     feats = dict(feats, where=b[2] if len(b) > 2 else None)
@@ -271,7 +346,9 @@ def run(tier, t0):
              "require/ensure/invariant. The real message is parsed into '<text> was <repr>' lines and all()-blocks; soundness: "
              "each text is a sub-expression Python evaluated (or a call argument) and the repr equals a_repr.repr of a value it "
              "took; the all()-example is the first falsifying assignment; completeness: every representable argument and every "
-             "Name/Attribute/Call/Subscript/comprehension evaluated outside a comprehension scope is listed. "
+             "Name/Attribute/Call/Subscript/comprehension evaluated outside a comprehension scope is listed; additionally every node in "
+             "icontract._recompute.Visitor.recomputed_values (shown or not) is compared with the recorder: same value, and nothing "
+             "re-computed that Python skipped. "
              "non-trivial = every falsy (condition, valuation)".format(
                  len(set(c[1] for c in conds)), ", full products of <=2-slot productions, depth-3 chains" if level >= 3 else ""),
         assumptions=["dict displays with **, inline lambdas, await, yield and starred displays are outside the alphabet",
